@@ -5,6 +5,7 @@ import (
 	"errors"
 	"fmt"
 	"sort"
+	"sync/atomic"
 	"testing"
 	"time"
 
@@ -38,7 +39,7 @@ func TestManageLoop(t *testing.T) {
 		"a successful p2p.Connect is a live connection from that moment; the topology must report it once the pass that made it is over",
 		"harness events never concern a peer the manage loop may be dialing at that moment (inbound-only peers are refused by p2p.Connect; dialable peers are only touched while the loop is parked), so the model needs no assumption about the order of racing notifications",
 		"waiting is only for the manage loop to finish a pass (bounded, 120 s, expiry = harness failure, never a verdict)")
-	n := run.N(40, 500)
+	n := run.N(40, 400)
 	st := map[string]int64{}
 	for i := 0; i < n; i++ {
 		c := run.Begin(fmt.Sprintf("loop/%d", i), nil)
@@ -111,6 +112,25 @@ func TestManageLoop(t *testing.T) {
 		}
 		w.rig.StartLoop(t)
 		k := w.rig.Kad
+		// Start() reads the addressbook in a goroutine of its own and adds every overlay to the
+		// known peers when it is done; wait for that (the inbound-only peers cannot leave the
+		// known set yet), otherwise a short world could close the store under that goroutine.
+		for deadline := time.Now().Add(120 * time.Second); ; {
+			known, _ := w.rig.Known()
+			missing := 0
+			for _, p := range inPeers {
+				if _, ok := known[string(p.addr)]; !ok {
+					missing++
+				}
+			}
+			if missing == 0 {
+				break
+			}
+			if time.Now().After(deadline) {
+				t.Fatalf("harness: Kad.Start did not load the addressbook within 120 s")
+			}
+			time.Sleep(200 * time.Microsecond)
+		}
 		evs := map[string]bool{}
 		isIn := map[int]bool{}
 		for _, p := range inPeers {
@@ -305,6 +325,7 @@ func TestManageLoop(t *testing.T) {
 			st[k] += v
 		}
 		w.mu.Unlock()
+		st["gossip_messages"] += atomic.LoadInt64(&w.gossipMsgs)
 		ks := make([]string, 0, len(evs))
 		for e := range evs {
 			ks = append(ks, e)
@@ -319,4 +340,3 @@ func TestManageLoop(t *testing.T) {
 		run.Stat(k, v)
 	}
 }
-
